@@ -150,10 +150,6 @@ func (g asmGens) batch(t *rapid.T) AsmLine {
 		l.Sym = g.sym.Draw(t, "target")
 	}
 	l.Sel = g.sel.Draw(t, "sel")
-	if l.Sel == "*" {
-		// the wildcard is an INCMP selector, not a menu choice
-		l.Sel = "9"
-	}
 	l.Label = g.sym.Draw(t, "label")
 	genAsmNoise(t, &l)
 	return l
@@ -470,4 +466,8 @@ func TestC16(t *testing.T) {
 		return
 	}
 	runConcC16(t)
+	if t.Failed() {
+		return
+	}
+	runC16Cli(t)
 }
